@@ -309,6 +309,33 @@ def rule_partition(ctx, rep, rid="C09.partition"):
                        what="after joining, the helper returns without running the inline fallback only if at least one worker thread was created")
     rep.must_take_edge(rid, "helper.fallback-or-threads", f, [f.entry()], None, good, to_exit=True, include_start=True, avoid=lambda i: i in fb,
                        what="every return either ran the inline fallback or passed the `threads created > 0` test")
+    # ... and only when no partition was left over: `start == 0` (a pthread_create that failed part-way leaves start = first unprocessed bucket)
+    if fb:
+        sv = ir.expr(f, fb[0].args[2], 2)
+        zero_start = []
+        for b in f.blocks:
+            for s_ in b.succ:
+                if len(b.succ) < 2:
+                    continue
+                for a in ir.edge_atoms(f, b.id, s_):
+                    lv = []
+                    if len(a) == 3 and a[0] == "ne" and a[2] == ("c", 0) and a[1][0] in ("select", "bin", "icmp"):
+                        pat.leaf_atoms(("icmp", "ne", a[1], ("c", 0)), True, lv)
+                    else:
+                        lv = [a]
+                    if any(len(x) == 3 and x[0] == "eq" and x[2] == ("c", 0) and (x[1] == sv or (x[1][0] == "phi" and sv[0] == "phi")) for x in lv):
+                        zero_start.append((b.id, s_))
+                    if any(len(x) == 3 and x[0] == "ne" and x[2] == ("c", 0) and x[1] == sv for x in lv):
+                        hit_, _ = f.reach([f.blocks[s_].insts[0]], None, avoid=lambda i: i in fb, stop_at_exit=True, include_start=True)
+                        if hit_ is not None and hit_.op == "ret" and not f.reach([f.blocks[s_].insts[0]], fb, include_start=True)[0]:
+                            rep.bad(rid, "helper.skip-fallback-only-if-start-0", "the helper returns without the inline fallback exactly when start != 0: the partitions left over by a failed pthread_create are never processed "
+                                    "(new buckets stay unpopulated / removed levels stay linked)", [f.blocks[b.id].insts[-1].where()])
+                            zero_start.append((b.id, s_))
+        if zero_start:
+            rep.must_take_edge(rid, "helper.skip-fallback-only-if-start-0", f, joins, None, zero_start, to_exit=True, include_start=False, avoid=lambda i: i in fb,
+                               what="after joining, the helper returns without the inline fallback only when start == 0 (no partition left over by a failed pthread_create)")
+        else:
+            rep.unk(rid, "helper.skip-fallback-only-if-start-0", "the test of `start` that decides whether the inline fallback runs is not recognised")
     for i in fb:
         rep.check(ir.expr(f, i.args[0]) == ("arg", 0) and ir.expr(f, i.args[1]) == ("arg", 1), rid, "helper.fallback-args", "fallback processes the same table and level", "fallback called on different table/level", [i.where()])
     # the inline fallback covers everything the threads did not: (start, len) is (0, len) or (S, len - S) on every way into it
